@@ -31,7 +31,23 @@ func errAliases(s Site) map[ssa.Value]bool {
 	for _, v := range vals {
 		add(v)
 	}
-	for len(work) > 0 {
+	var deferred []*ssa.Phi
+	for len(work) > 0 || len(deferred) > 0 {
+		if len(work) == 0 {
+			// phis that did not qualify when they were met: their other edges may have become aliases since
+			var rest []*ssa.Phi
+			for _, ph := range deferred {
+				if !al[ph] && phiCarriesOnly(ph, al, s) {
+					add(ph)
+				} else if !al[ph] {
+					rest = append(rest, ph)
+				}
+			}
+			deferred = rest
+			if len(work) == 0 {
+				break
+			}
+		}
 		v := work[len(work)-1]
 		work = work[:len(work)-1]
 		refs := v.Referrers()
@@ -57,7 +73,11 @@ func errAliases(s Site) map[ssa.Value]bool {
 					}
 				}
 			case *ssa.Phi:
-				add(x)
+				if phiCarriesOnly(x, al, s) {
+					add(x)
+				} else {
+					deferred = append(deferred, x)
+				}
 			case *ssa.ChangeInterface:
 				add(x)
 			case *ssa.MakeInterface:
@@ -66,6 +86,44 @@ func errAliases(s Site) map[ssa.Value]bool {
 		}
 	}
 	return al
+}
+
+// phiCarriesOnly: a test of ph says something about the call at s on every way into the phi — each edge brings an alias of
+// the call's error, or comes from a place that is only reached when a direct test has found that error nil (the call has
+// run and succeeded; what the edge brings is a later step's error). A phi that also takes values from paths on which the
+// call has not run (`if opt { err = a() }; err2 := b(); … phi(err, err2)`) is no alias: its nil edge is no proof that the
+// call succeeded.
+func phiCarriesOnly(ph *ssa.Phi, al map[ssa.Value]bool, s Site) bool {
+	blk := ph.Block()
+	if blk == nil {
+		return true
+	}
+	var succTargets []*ssa.BasicBlock
+	for _, b := range liveBlocks(s.Fn) {
+		if v, nilS, _, ok := nilTest(b); ok && al[v] {
+			if _, isPhi := v.(*ssa.Phi); !isPhi && len(nilS.Preds) == 1 {
+				succTargets = append(succTargets, nilS)
+			}
+		}
+	}
+	for i, e := range ph.Edges {
+		if al[e] || e == ssa.Value(ph) {
+			continue
+		}
+		if i >= len(blk.Preds) {
+			return false
+		}
+		ok := false
+		for _, t := range succTargets {
+			if dominates(t, blk.Preds[i]) {
+				ok = true
+			}
+		}
+		if !ok {
+			return false
+		}
+	}
+	return true
 }
 
 // errorEdges returns the CFG edges taken when the error of call site s is nil (success) / non-nil (failure).
